@@ -24,7 +24,7 @@ import time
 
 VERIF = os.path.dirname(os.path.abspath(__file__))
 REPO = os.environ.get("VERIF_REPO", "/repo")
-BUILD = os.path.join(VERIF, "build")
+BUILD = os.environ.get("VERIF_BUILD_DIR") or os.path.join(VERIF, "build")  # the override is used by the seeded-change / mutant tools only
 BIN = os.path.join(BUILD, "checks.test")
 KNOWN = os.path.join(VERIF, "known_findings.json")
 EVID = os.environ.get("VERIF_EVIDENCE_DIR") or os.path.join(VERIF, "evidence")  # the override is used by tools_seeded.py only
@@ -83,8 +83,10 @@ def gen_overlay():
     return modpath, ov
 
 
-def build(quiet=False):
-    """Rebuild the check binary from /repo's current working tree."""
+def build(quiet=False, snapshot=None):
+    """Rebuild the check binary from /repo's current working tree. With
+    snapshot=<tag> the fresh binary is copied (still under the build lock, so
+    that a concurrent rebuild cannot slip in) and the copy's path returned."""
     os.makedirs(BUILD, exist_ok=True)
     lock = open(os.path.join(BUILD, ".lock"), "w")
     fcntl.flock(lock, fcntl.LOCK_EX)
@@ -101,6 +103,8 @@ def build(quiet=False):
         os.replace(tmpbin, BIN)
         if not quiet:
             log("built %s in %.1fs" % (BIN, time.time() - t0))
+        if snapshot:
+            return snapshot_bin(snapshot)
         return True
     finally:
         fcntl.flock(lock, fcntl.LOCK_UN)
@@ -304,9 +308,9 @@ def cmd_check(prop, tier, seed, nshards, keep):
     t0 = time.time()
     os.makedirs(EVID, exist_ok=True)
     evpath = os.path.join(EVID, prop + ".json")
-    if not build(quiet=True):
+    binpath = build(quiet=True, snapshot=prop)
+    if not binpath:
         return 2
-    binpath = snapshot_bin(prop)
     outdir = tempfile.mkdtemp(prefix="run-%s-" % prop, dir=BUILD)
     rc = 2
     try:
@@ -559,9 +563,9 @@ def load_assumptions():
 
 
 def cmd_replay(prop, path):
-    if not build(quiet=True):
+    binpath = build(quiet=True, snapshot=prop + "r")
+    if not binpath:
         return 2
-    binpath = snapshot_bin(prop + "r")
     outdir = tempfile.mkdtemp(prefix="replay-%s-" % prop, dir=BUILD)
     try:
         rr, err = replay_once(binpath, prop, path, outdir, 0)
